@@ -130,11 +130,25 @@ def expressible(dev, name, native):
     return True
 
 
+# names and aliases of the library (operations.GATE_CLASS_MAP) outside the model's gate alphabet decomp.GNAMES: judged by
+# the oracle only (refusal, or a transpiled circuit that meets the property)
+ALIASES = {"H": (0, 1), "CX": (1, 1), "iSWAP": (0, 2), "SWAPALPHA": (0, 2)}
+XSHAPE = dict(decomp.SHAPE)
+XSHAPE.update(ALIASES)
+# every gate name of the library except RZX (native to SCQubits, known to no rule and not to the router: documented in
+# notes/C13.md as outside the class "circuits over resolvable gates")
+EXTRA = [n for n in XSHAPE if n not in RESOLVABLE + OTHERS and n != "RZX"]
+# proper arguments of the gate classes that take more than one
+# the rest of the model's gate alphabet (decomp.GNAMES): refused today, compared as refusals in the exhaustive stream
+MODEL_EXTRA = [n for n in decomp.GNAMES if n not in RESOLVABLE + OTHERS and n != "RZX"]
+XARGS = {"MS": [0.3, 0.4], "R": [0.3, 0.4], "QASMU": [0.3, 0.4, 0.5], "SWAPALPHA": 0.7, "CRY": 0.7, "CRZ": 0.7}
+
+
 def shape_ok(N, g):
     """a library gate as the gate classes build it, on distinct in-range qubits"""
-    if g[0] not in decomp.SHAPE:
+    if g[0] not in XSHAPE:
         return False
-    nc, nt = decomp.SHAPE[g[0]]
+    nc, nt = XSHAPE[g[0]]
     qs = list(g[1]) + list(g[2])
     return len(g[1]) == nt and len(g[2]) == nc and len(set(qs)) == len(qs) and all(0 <= q < N for q in qs)
 
@@ -142,7 +156,7 @@ def shape_ok(N, g):
 def in_class(w):
     """the quantifier of the property: library gates (the resolvable ones and the other gate classes of the library;
     not RZX, which no rule knows) as their classes build them, on distinct in-range qubits"""
-    return all(g[0] in RESOLVABLE + OTHERS and shape_ok(w["N"], g) for g in w["gates"])
+    return all(g[0] in RESOLVABLE + OTHERS + EXTRA and shape_ok(w["N"], g) for g in w["gates"])
 
 
 def wit(dev, N, gates, M=None):
@@ -624,7 +638,7 @@ class C13(PropertyCheck):
             for N in range(1, 6):
                 if not buildable(dev, N):
                     continue
-                for name in RESOLVABLE + OTHERS:
+                for name in RESOLVABLE + OTHERS + MODEL_EXTRA:
                     nc, nt = decomp.SHAPE[name]
                     if nc + nt > N:
                         continue
@@ -729,8 +743,30 @@ class C13(PropertyCheck):
             if M <= 4 and gs[0].name in ("CNOT", "ISWAP", "TOFFOLI"):
                 yield wit(dev, N, gs, M)
 
+    def _alphabet(self, wide=False):
+        """EVERY other gate name of the library (the gate classes not resolvable today, legacy names, aliases: CZ, CX, H,
+        iSWAP, CRX, MS, ...) on neighbouring AND distant qubits of every device: refused, or transpiled onto native gates on
+        coupled qubits with the same unitary - "accepted, but on uncoupled qubits" is the violation"""
+        for name in OTHERS + EXTRA:
+            nc, nt = XSHAPE[name]
+            if nc + nt > 2 or nc + nt == 0:
+                continue
+            for N in ((4, 5, 3) if wide else (4,)):
+                for dev in DEVS:
+                    if nc + nt == 1:
+                        places = [(0,), (N - 1,)]
+                    elif wide:
+                        places = list(itertools.permutations(range(N), 2))
+                    else:
+                        places = [(0, 1), (1, 0), (0, 2), (2, 0), (1, 3), (3, 0)]
+                    for qs in places:
+                        v = XARGS.get(name, 0.7390851332151607 if name in PARAM else None)
+                        yield {"dev": dev, "N": N, "gates": [["RY", [qs[0]], [], 0.5], [name, list(qs[:nt]), list(qs[nt:]), v]]}
+
     def _systematic(self):
-        """three-qubit gates first (the known weak spot), then two-qubit gates at every distance"""
+        """the whole gate alphabet on neighbouring and distant qubits, three-qubit gates (the known weak spot), then two-qubit
+        gates at every distance"""
+        yield from self._alphabet(wide=True)
         for name in ("TOFFOLI", "FREDKIN"):
             for N in (3, 4, 5):
                 for dev in DEVS:
@@ -763,6 +799,8 @@ class C13(PropertyCheck):
         N = rng.randint(1 if buildable(dev, 1) else 2, 5)
         native = devices_native(dev)
         names = [n for n in RESOLVABLE if expressible(dev, n, native)]
+        if rng.random() < 0.15:               # any gate name of the library (model alphabet): refusal or a correct result
+            names = names + [n for n in OTHERS if n != "IDLE"]
         gs = [g for g in (random_gate(rng, N, names, i) for i in range(rng.randint(1, 6))) if g is not None]
         return wit(dev, N, gs)
 
@@ -793,6 +831,14 @@ class C13(PropertyCheck):
                     if f and (name, dev) not in seen_kind:
                         seen_kind.add((name, dev))
                         yield reproducible(w, len(CALLS)), d
+        n = 0
+        for w in self._alphabet():
+            f, d = check_property(w)
+            if f:
+                yield reproducible(w, len(CALLS)), d
+                n += 1
+                if n >= 2:
+                    break
         n = 0
         for w in itertools.chain(self._multi(4), self._sizes()):
             if not self._in_theorem_class(w):
